@@ -82,7 +82,7 @@ def run_with_ttys(exe, line, ttys, env):
 
 
 def run(ck):
-    ck.prove(["AsModel.Theorems.C17"])
+    ck.prove(["AsModel.Theorems.C17", "AsModel.Theorems.C06Report"])
     ck.build_harness("rt")
     exe = os.path.join(CACHE, "target", "rt", "release", "rt")
     scratch = os.path.join(CACHE, "scratch", "c17-%d" % os.getpid())
@@ -177,6 +177,33 @@ def run(ck):
             ck.report("history-dependent", "the report depends on which assertions failed earlier in the process", dict(alone=alone[:300], after_history=after[:300]))
         ck.corr_record("T5 environment and history (the same failure formatted from 4 working directories and after 41 earlier failures, compared with the failure formatted alone in a fresh process)",
                        6, 6, 0, {"cwds": 4, "history_length": 41}, samples=[dict(request=req[:160])], rule="one report, five environments; all distinct")
+        # cold vs warm cache per kind of file content: the same failure formatted three times in ONE process (the first time the source
+        # comes from the file system, afterwards from the cache; another failure of the same file in between) and once alone in a
+        # fresh process - all four reports must be identical, whatever the line endings / encoding quirks of the file (seed C17-11
+        # normalised line endings on the way INTO the cache only)
+        classes = {"lf": src, "crlf": src.replace("\n", "\r\n"),
+                   "mixed-endings": "fn main() {\r\n    let é = 1;\n    assert_struct!(v, S { a: > 5, b: \"x\" });\r\n}\n",
+                   "bare-cr-inside-a-line": src.replace("let é", "let\ré"), "no-final-newline": src.rstrip("\n"), "bom": "\ufeff" + src,
+                   "tabs": src.replace("    ", "\t"), "crlf-blank-lines": "\r\n\r\n" + src.replace("\n", "\r\n"), "form-feed-and-nel": src.replace("fn main", "\x0c\u0085fn main")}
+        cwdist = {}
+        for cname, text in classes.items():
+            f3 = "cw_%s.rs" % cname.replace("-", "_")
+            with open(os.path.join(scratch, f3), "w", newline="", encoding="utf-8") as fh:
+                fh.write(text)
+            extra_lines = text.count("\n") - src.count("\n")
+            l = 3 + extra_lines
+            r1 = "display %s %s 1 %s 2 %d 26 %d 29 cmp:gt:%s %s none %d 34 %d 37 simple:%s %s none" % (
+                hexs(scratch), hexs(f3), hexs(text), l, l, hexs("5"), hexs("3"), l, l, hexs('"x"'), hexs('"y"'))
+            r2 = "display %s %s 1 %s 1 %d 4 %d 9 simple:%s %s none" % (hexs(scratch), hexs(f3), hexs(text), l - 1, l - 1, hexs("q"), hexs("w"))
+            fresh = ck.rt_batch([r1])[0]
+            seq = ck.rt_batch([r1, r2, r1])
+            same = fresh == seq[0] == seq[2]
+            cwdist["%s: %s" % (cname, "same report cold and warm" if same else "DIFFERENT")] = 1
+            if not same:
+                ck.report("history-dependent:cold-vs-warm:" + cname, "the report of a failure differs between the first time its file is read (cold source cache) and later failures of the same file in the same process (file content: %s)" % cname,
+                          dict(file_content_class=cname, file_text=text, request=r1[:300], alone_in_fresh_process=fresh[:500], first_in_process=seq[0][:500], third_in_process=seq[2][:500]))
+        ck.corr_record("T5 cold vs warm source cache per kind of file content (LF, CRLF, mixed endings, a bare CR, no final newline, BOM, tabs, leading blank CRLF lines, form feed / NEL): the same failure formatted alone, first, and third in one process",
+                       4 * len(classes), len(classes), 0, cwdist, samples=[dict(classes=list(classes))], exhaustive=True, rule="%d content classes x {fresh process, 1st and 3rd report of one process}" % len(classes))
         # --- colour: styled iff stderr is a terminal, NO_COLOR is unset and no guard is alive
         cdist = {}
         for tty in (False, True):
